@@ -59,6 +59,12 @@ type gcsCase struct {
 	member  []bool  // query is one of the elements (never-miss clause)
 	batches [][]int // indexes into queries
 	alias   int     // index of a query whose value equals a member's value modulo 2^32 only (-1: none)
+
+	// when set, the filter under test was made by another constructor (the
+	// BIP158 block filter builder) and violations are keyed with this prefix
+	prebuilt *gcs.Filter
+	prefix   string
+	maker    string
 }
 
 func limbs(v uint64) string {
@@ -158,58 +164,64 @@ func checkGcs(c *vrun.Ctx, g *gcsCase, ex tla.Value, st *stats) {
 	}
 	c.AddTraces(1)
 
-	var f *gcs.Filter
+	pfx, maker := "gcs", "BuildGCSFilter"
+	if g.prefix != "" {
+		pfx, maker = g.prefix, g.maker
+	}
+	f := g.prebuilt
 	var err error
-	if p := guard(func() { f, err = gcs.BuildGCSFilter(g.P, g.M, g.key, g.data) }); p != nil || err != nil {
-		c.Violation("gcs:build-fails", fmt.Sprintf("BuildGCSFilter(P=%d, M=%d, %d elements) fails: %v %v", g.P, g.M, len(g.data), p, err), replay)
-		return
+	if f == nil {
+		if p := guard(func() { f, err = gcs.BuildGCSFilter(g.P, g.M, g.key, g.data) }); p != nil || err != nil {
+			c.Violation(pfx+":build-fails", fmt.Sprintf("BuildGCSFilter(P=%d, M=%d, %d elements) fails: %v %v", g.P, g.M, len(g.data), p, err), replay)
+			return
+		}
 	}
 	c.AddEval(1)
 	if int(f.N()) != ex.F("n").Int() || f.P() != g.P {
-		c.Violation("gcs:n", fmt.Sprintf("filter reports N=%d P=%d, built from %d elements with P=%d", f.N(), f.P(), ex.F("n").Int(), g.P), replay)
+		c.Violation(pfx+":n", fmt.Sprintf("filter reports N=%d P=%d, built from %d elements with P=%d", f.N(), f.P(), ex.F("n").Int(), g.P), replay)
 	}
 	got, _ := f.Bytes()
 	c.AddEval(1)
 	if !bytes.Equal(got, wantData) {
 		replay["got_bytes"] = clip(fmt.Sprintf("%x", got), 400)
-		c.Violation("gcs:bytes", fmt.Sprintf("BuildGCSFilter(P=%d, M=%d) of %d elements serialises to %s; the Golomb-Rice coding of the sorted values is %s (%s)",
-			g.P, g.M, len(g.data), clip(fmt.Sprintf("%x", got), 80), clip(fmt.Sprintf("%x", wantData), 80), g.label), replay)
+		c.Violation(pfx+":bytes", fmt.Sprintf("%s(P=%d, M=%d) of %d elements serialises to %s; the Golomb-Rice coding of the sorted values is %s (%s)",
+			maker, g.P, g.M, len(g.data), clip(fmt.Sprintf("%x", got), 80), clip(fmt.Sprintf("%x", wantData), 80), g.label), replay)
 	}
 	gotN, _ := f.NBytes()
 	c.AddEval(1)
 	if !bytes.Equal(gotN, wantN) {
-		c.Violation("gcs:nbytes", fmt.Sprintf("NBytes() = %s, the specification's framing (N as compact size, then the bytes) is %s",
+		c.Violation(pfx+":nbytes", fmt.Sprintf("NBytes() = %s, the specification's framing (N as compact size, then the bytes) is %s",
 			clip(fmt.Sprintf("%x", gotN), 80), clip(fmt.Sprintf("%x", wantN), 80)), replay)
 	}
 	if pb, _ := f.PBytes(); len(pb) != len(got)+1 || pb[0] != g.P || !bytes.Equal(pb[1:], got) {
-		c.Violation("gcs:pbytes", "PBytes() is not P followed by the filter bytes", replay)
+		c.Violation(pfx+":pbytes", "PBytes() is not P followed by the filter bytes", replay)
 	}
 	if npb, _ := f.NPBytes(); !bytes.Equal(npb, append(append(append([]byte{}, wantN[:len(wantN)-len(wantData)]...), g.P), wantData...)) {
-		c.Violation("gcs:npbytes", "NPBytes() is not N, P, then the filter bytes", replay)
+		c.Violation(pfx+":npbytes", "NPBytes() is not N, P, then the filter bytes", replay)
 	}
 
 	// round trips, from the SPECIFICATION's bytes
 	apis := []gcsAPI{{"built", f}}
 	var fn, fb *gcs.Filter
 	if p := guard(func() { fn, err = gcs.FromNBytes(g.P, g.M, wantN) }); p != nil || err != nil {
-		c.Violation("gcs:from-nbytes", fmt.Sprintf("FromNBytes rejects the specification's framed bytes: %v %v", p, err), replay)
+		c.Violation(pfx+":from-nbytes", fmt.Sprintf("FromNBytes rejects the specification's framed bytes: %v %v", p, err), replay)
 	} else {
 		b2, _ := fn.Bytes()
 		n2, _ := fn.NBytes()
 		c.AddEval(1)
 		if int(fn.N()) != ex.F("n").Int() || !bytes.Equal(b2, wantData) || !bytes.Equal(n2, wantN) {
-			c.Violation("gcs:from-nbytes", fmt.Sprintf("FromNBytes(NBytes) does not round-trip: N=%d bytes=%s", fn.N(), clip(fmt.Sprintf("%x", b2), 80)), replay)
+			c.Violation(pfx+":from-nbytes", fmt.Sprintf("FromNBytes(NBytes) does not round-trip: N=%d bytes=%s", fn.N(), clip(fmt.Sprintf("%x", b2), 80)), replay)
 		} else {
 			apis = append(apis, gcsAPI{"from-nbytes", fn})
 		}
 	}
 	if p := guard(func() { fb, err = gcs.FromBytes(uint32(ex.F("n").Int()), g.P, g.M, wantData) }); p != nil || err != nil {
-		c.Violation("gcs:from-bytes", fmt.Sprintf("FromBytes rejects the specification's bytes: %v %v", p, err), replay)
+		c.Violation(pfx+":from-bytes", fmt.Sprintf("FromBytes rejects the specification's bytes: %v %v", p, err), replay)
 	} else {
 		b2, _ := fb.Bytes()
 		c.AddEval(1)
 		if !bytes.Equal(b2, wantData) {
-			c.Violation("gcs:from-bytes", "FromBytes(Bytes) does not round-trip", replay)
+			c.Violation(pfx+":from-bytes", "FromBytes(Bytes) does not round-trip", replay)
 		} else if g.kind == "small" {
 			apis = append(apis, gcsAPI{"from-bytes", fb})
 		}
@@ -239,7 +251,7 @@ func checkGcs(c *vrun.Ctx, g *gcsCase, ex tla.Value, st *stats) {
 			var m bool
 			var merr error
 			if p := guard(func() { m, merr = a.f.Match(g.key, q) }); p != nil || merr != nil {
-				c.Violation("gcs:match-fails", fmt.Sprintf("Match fails on a well-formed filter (%s): %v %v", a.name, p, merr), replay)
+				c.Violation(pfx+":match-fails", fmt.Sprintf("Match fails on a well-formed filter (%s): %v %v", a.name, p, merr), replay)
 				continue
 			}
 			c.AddEval(1)
@@ -250,10 +262,10 @@ func checkGcs(c *vrun.Ctx, g *gcsCase, ex tla.Value, st *stats) {
 			r2["query"] = fmt.Sprintf("%x", q)
 			r2["query_value"] = g.qvals[qi]
 			if g.member[qi] && !m {
-				c.Violation("gcs:member-missed:Match", fmt.Sprintf("Match(%x) = false on the %s filter (P=%d M=%d N=%d) although the element is one of those the filter was built from (value %d; %s)",
+				c.Violation(pfx+":member-missed:Match", fmt.Sprintf("Match(%x) = false on the %s filter (P=%d M=%d N=%d) although the element is one of those the filter was built from (value %d; %s)",
 					q, a.name, g.P, g.M, len(g.data), g.qvals[qi], g.label), r2)
 			} else {
-				c.Violation("gcs:match:Match", fmt.Sprintf("Match(%x) = %v on the %s filter, the specification says %v (query value %d; %s)", q, m, a.name, wantMatch[qi], g.qvals[qi], g.label), r2)
+				c.Violation(pfx+":match:Match", fmt.Sprintf("Match(%x) = %v on the %s filter, the specification says %v (query value %d; %s)", q, m, a.name, wantMatch[qi], g.qvals[qi], g.label), r2)
 			}
 		}
 	}
@@ -282,7 +294,7 @@ func checkGcs(c *vrun.Ctx, g *gcsCase, ex tla.Value, st *stats) {
 				var m bool
 				var merr error
 				if p := guard(func() { m, merr = s.call(a.f, qs) }); p != nil || merr != nil {
-					c.Violation("gcs:batch-fails:"+s.name, fmt.Sprintf("%s fails on a well-formed filter (%s, %d targets): %v %v", s.name, a.name, len(qs), p, merr), replay)
+					c.Violation(pfx+":batch-fails:"+s.name, fmt.Sprintf("%s fails on a well-formed filter (%s, %d targets): %v %v", s.name, a.name, len(qs), p, merr), replay)
 					continue
 				}
 				c.AddEval(1)
@@ -313,14 +325,14 @@ func checkGcs(c *vrun.Ctx, g *gcsCase, ex tla.Value, st *stats) {
 				}
 				switch {
 				case trunc:
-					c.Violation("gcs:hash-match-any:values-truncated-to-32-bits",
+					c.Violation(pfx+":hash-match-any:values-truncated-to-32-bits",
 						fmt.Sprintf("%s answers true for a batch none of whose %d targets matches on its own (Match and ZipMatchAny say false): the hash-set strategy keys its index by uint32(value), and N*M = %d exceeds 2^32 (N=%d, M=%d), so a target whose value differs from a member's value by a multiple of 2^32 is reported as present; batch matching is not element-wise matching",
 							s.name, len(qs), uint64(len(g.data))*g.M, len(g.data), g.M), r2)
 				case hasMember && !m:
-					c.Violation("gcs:member-missed:"+s.name, fmt.Sprintf("%s = false on the %s filter for a batch of %d targets that contains an element the filter was built from (P=%d M=%d N=%d; %s)",
+					c.Violation(pfx+":member-missed:"+s.name, fmt.Sprintf("%s = false on the %s filter for a batch of %d targets that contains an element the filter was built from (P=%d M=%d N=%d; %s)",
 						s.name, a.name, len(qs), g.P, g.M, len(g.data), g.label), r2)
 				default:
-					c.Violation("gcs:batch:"+s.name, fmt.Sprintf("%s = %v on the %s filter for a batch of %d targets; element-wise matching (the specification) gives %v (P=%d M=%d N=%d; %s)",
+					c.Violation(pfx+":batch:"+s.name, fmt.Sprintf("%s = %v on the %s filter for a batch of %d targets; element-wise matching (the specification) gives %v (P=%d M=%d N=%d; %s)",
 						s.name, m, a.name, len(qs), wantAny[bi], g.P, g.M, len(g.data), g.label), r2)
 				}
 			}
